@@ -22,7 +22,7 @@ structure AgreeM (cx : Ctx) (vis : Var → Bool) (env : Ast.Env) : Prop where
 
 /-- the side conditions of an expression inside a given frame -/
 def side (cx : Ctx) (W : World) (vis : Var → Bool) (rsv : Nat → List Var) : Ir.Side :=
-  { sig := W.sig, vty := cx.vty, vis := vis, req := cx.req, rsv := rsv }
+  { sig := W.sig, vty := cx.vty, vis := vis, req := cx.req, rsv := rsv, called := cx.called }
 
 def toMArg : Val × Option Var → Msl.MArg
   | (v, none) => .val v
@@ -43,13 +43,17 @@ def globParams (cx : Ctx) (gs : List Nat) : List (Msl.PK × Ty) := gs.map fun g 
 
 def globMArgs (gs : List Nat) : List Msl.MArg := gs.map fun g => Msl.MArg.ref (.glob g)
 
-/-- by-value arguments where the parameter is `in`, variables elsewhere -/
-def fitsB : List (Dir × Ty) → List (Val × Option Var) → Bool
+/-- by-value arguments where the parameter is `in`, variables of exactly the parameter's type elsewhere -/
+def fitsB (vty : Var → Ty) : List (Dir × Ty) → List (Val × Option Var) → Bool
   | [], [] => true
-  | (d, _) :: ps, (_, o) :: l => (decide (d = .in_) == o.isNone) && fitsB ps l
+  | (d, T) :: ps, (_, o) :: l =>
+    (match o with
+      | none => decide (d = .in_)
+      | some x => decide (d ≠ .in_) && decide (vty x = T)) && fitsB vty ps l
   | _, _ => false
 
-/-- **the link between the two worlds**: same primitives; the Metal overload callers see (`target = false`) takes the
+/-- **the link between the two worlds**: same primitives; for every function that is called somewhere in the module
+(`called_functions`) the Metal overload callers see (`target = false`) takes the
 user parameters (by value for `in`, by reference otherwise) followed by references to the statics the function needs;
 and calling it with variables for the out/inout parameters *behaves as copy-in / copy-out around the typed function*:
 the values of those variables at the moment of the call are passed in, the function runs on its own copies, the final
@@ -57,10 +61,10 @@ parameter values are written back in parameter order. -/
 structure Worlds (cx : Ctx) (rsv : Nat → List Var) (W : World) (M : Msl.MWorld) : Prop where
   prim : M.P = W.P
   ret : ∀ f rt ps, W.sig f = some (rt, ps) → cx.retTy f = some rt
-  sig : ∀ f rt ps gs, W.sig f = some (rt, ps) → cx.req f = some gs →
+  sig : ∀ f rt ps gs, W.sig f = some (rt, ps) → cx.req f = some gs → cx.called f = true →
     M.msig f false = some (rt, mParams ps ++ globParams cx gs)
-  call : ∀ f rt ps gs (l : List (Val × Option Var)) σ, W.sig f = some (rt, ps) → cx.req f = some gs →
-    fitsB ps l = true → (∀ p ∈ l, ∀ x, p.2 = some x → (rsv f).contains x = false) →
+  call : ∀ f rt ps gs (l : List (Val × Option Var)) σ, W.sig f = some (rt, ps) → cx.req f = some gs → cx.called f = true →
+    fitsB cx.vty ps l = true → (∀ p ∈ l, ∀ x, p.2 = some x → (rsv f).contains x = false) →
     M.mphi f false (l.map toMArg ++ globMArgs gs) σ =
       match W.phi f (l.map (valAt σ)) σ with
       | none => none
